@@ -195,6 +195,9 @@ def pick_int(r):
         return r.choice([10 ** e + d for e in range(1, 18) for d in (-1, 0, 1)])
     if k < 0.7:
         return r.choice([2 ** e + d for e in (8, 15, 16, 31, 32, 52, 53, 62) for d in (-1, 0, 1)])
+    if k < 0.76:
+        # at and beyond what a 64-bit counter holds: 7.7 still asks for the number, and no format can make it 0
+        return r.choice([2 ** 63, 2 ** 64 - 2048, 2 ** 64, 2 ** 64 + 4096, 2 ** 65, 10 ** 19, 10 ** 20, 10 ** 25, 10 ** 30, 2 ** 100])
     return int(10 ** r.uniform(0, 18))
 
 
@@ -247,7 +250,7 @@ def fmt_case(ctx, idx, res):
         n = pick_int(r)
         tok = r.choice(FMT_TOKENS)
         if n >= 2 ** 53:
-            n = (n >> 11) << 11                    # keep the value exactly representable as a double
+            n = int(float((n >> 11) << 11))        # keep the value exactly representable as a double
         if tok in ('i', 'I') and n > 3998:
             n = n % 3998 + 1                       # roman numerals are only defined up to 3999
         pre, suf = r.choice(AFFIX), r.choice(AFFIX)
@@ -289,6 +292,15 @@ def fmt_case(ctx, idx, res):
     for got, (n, tok, pre, suf, gsep, gsize, a) in zip(outs, items):
         kind = 'decimal' if tok[-1] == '1' else 'alpha' if tok in 'aA' else 'roman'
         big = 'large' if n >= 2 ** 32 else 'small'
+        if n >= 2 ** 64:
+            # beyond the counter type the library falls back to the plain decimal numeral (no affixes, no grouping); whatever the shape,
+            # the digits must still be the value
+            digits = re.sub(r'[^0-9]', '', got)
+            if not digits or float(int(digits)) != float(n):
+                res.viol('format|value|huge', 'xsl:number%s gives %r for the value %d' % (a, got, n), dict(payload, instruction=a))
+                return
+            res.count('huge_values_formatted')
+            continue
         if not (got.startswith(pre) and got.endswith(suf) and len(got) >= len(pre) + len(suf)):
             res.viol('format|affix|%s' % kind, 'xsl:number%s gives %r: prefix %r / suffix %r of the format are not reproduced' % (a, got, pre, suf), dict(payload, instruction=a))
             return
